@@ -3,7 +3,7 @@
 # usage: run_seeds.sh [PROP ...]
 cd /verif
 props=${@:-$(python3 -c "import json;print(' '.join(c['property_id'] for c in json.load(open('MANIFEST.json'))['checks']))")}
-out=/verif/seeded/MATRIX.txt; : > $out
+out=${OUT:-/verif/seeded/MATRIX.txt}; : > $out
 for d in seeded/*/; do
   id=$(basename $d); [ -f $d/patch.diff ] || continue
   if ! git -C /repo apply --check $PWD/$d/patch.diff 2>/dev/null; then echo "$id: patch does not apply to current /repo" | tee -a $out; continue; fi
